@@ -388,14 +388,14 @@ impl Property for C12 {
     }
     fn plan(&self, tier: Tier) -> Vec<Segment> {
         vec![
-            Segment::random("BitVec", tier.pick(30_000, 400_000), &[0], 16, 200),
-            Segment::random("BitFieldVec", tier.pick(40_000, 500_000), &[1], 16, 200),
-            Segment::random("rank/select stacks", tier.pick(30_000, 400_000), &[2], 16, 200),
-            Segment::random("EliasFano", tier.pick(30_000, 400_000), &[3], 16, 300),
-            Segment::random("RearCodedList", tier.pick(20_000, 300_000), &[4], 16, 200),
-            Segment::random("VFunc/VFilter", tier.pick(2_000, 30_000), &[5], 8, 40),
-            Segment::random("misc", tier.pick(5_000, 60_000), &[6], 8, 60),
-            Segment::random("Modulo2Equation/Modulo2System", tier.pick(20_000, 300_000), &[7], 8, 120),
+            Segment::random("BitVec", tier.pick(150_000, 800_000), &[0], 16, 200),
+            Segment::random("BitFieldVec", tier.pick(200_000, 1_000_000), &[1], 16, 200),
+            Segment::random("rank/select stacks", tier.pick(150_000, 800_000), &[2], 16, 200),
+            Segment::random("EliasFano", tier.pick(150_000, 800_000), &[3], 16, 300),
+            Segment::random("RearCodedList", tier.pick(100_000, 600_000), &[4], 16, 200),
+            Segment::random("VFunc/VFilter", tier.pick(10_000, 60_000), &[5], 8, 40),
+            Segment::random("misc", tier.pick(25_000, 120_000), &[6], 8, 60),
+            Segment::random("Modulo2Equation/Modulo2System", tier.pick(100_000, 600_000), &[7], 8, 120),
         ]
     }
     fn rule(&self) -> &'static str {
